@@ -14,7 +14,9 @@ for d in /verif/seeded/$pat/; do
   [ -f $ev/props/$prop.json ] || { echo "$id: no check for $prop yet"; continue; }
   wt=/tmp/seedrun/$id; rm -rf $wt; mkdir -p /tmp/seedrun
   git -C /repo worktree add -q --detach $wt HEAD
-  if ! git -C $wt apply $d/patch.diff 2>/dev/null; then echo "$id: patch no longer applies"; git -C /repo worktree remove --force $wt; continue; fi
+  if ! git -C $wt apply $d/patch.diff 2>/dev/null && ! git -C $wt apply --3way $d/patch.diff >/dev/null 2>&1; then echo "$id: patch no longer applies"; git -C /repo worktree remove --force $wt; continue; fi
+  git -C $wt reset -q 2>/dev/null
+  if ! ( cd $wt && GOFLAGS=-mod=mod GOPROXY=off GOSUMDB=off GOTOOLCHAIN=local go build ./... ) >/dev/null 2>&1; then echo "$id: patch no longer compiles on the current tree"; git -C /repo worktree remove --force $wt; continue; fi
   log=$(cd $ev && VERIF_REPO=$wt timeout 1500 ./check $prop --tier $tier 2>&1); rc=$?
   first=$(echo "$log" | grep -a -m1 '^VIOLATION' | tr -cd '[:print:]'); detail=$(echo "$log" | grep -a -m1 '^  (' | cut -c1-160 | tr -cd '[:print:]')
   caught=no; [ $rc = 1 ] && [ -n "$first" ] && caught=yes
